@@ -10,6 +10,74 @@ use std::sync::Arc;
 
 use run::{Property, Tier};
 
+/// `$body` with `$p` bound to the property object of `$id`
+macro_rules! with_prop {
+    ($id:expr, $p:ident => $body:expr) => {
+        match $id {
+            "C01" => { let $p = props::c01::C01; $body }
+            "C02" => { let $p = props::c02::C02; $body }
+            "C03" => { let $p = props::c03::C03; $body }
+            "C04" => { let $p = props::c04::C04; $body }
+            "C05" => { let $p = props::c05::C05; $body }
+            "C06" => { let $p = props::c06::C06; $body }
+            "C07" => { let $p = props::c07::C07; $body }
+            "C08" => { let $p = props::c08::C08; $body }
+            "C09" => { let $p = props::c09::C09; $body }
+            "C10" => { let $p = props::c10::C10; $body }
+            "C11" => { let $p = props::c11::C11; $body }
+            "C12" => { let $p = props::c12::C12; $body }
+            "C13" => { let $p = props::c13::C13; $body }
+            "C14" => { let $p = props::c14::C14; $body }
+            "C15" => { let $p = props::c15::C15; $body }
+            "C16" => { let $p = props::c16::C16; $body }
+            "C17" => { let $p = props::c17::C17; $body }
+            "C18" => { let $p = props::c18::C18; $body }
+            "C19" => { let $p = props::c19::C19; $body }
+            "C20" => { let $p = props::c20::C20; $body }
+            other => {
+                eprintln!("unknown property '{}'", other);
+                std::process::exit(2);
+            }
+        }
+    };
+}
+
+/// the case a tape (libFuzzer input) decodes to, as a replay document
+fn case_from_tape<P: Property>(prop: &P, data: &[u8]) -> serde_json::Value {
+    let words = run::words_from_bytes(data);
+    let ctx = run::Ctx::standalone("convert");
+    let case = prop.generate(&mut vcheck::tape::Tape::new(&words), &ctx);
+    serde_json::json!({"property": prop.id(), "note": "from a libFuzzer artifact (tape target)", "case": case})
+}
+
+/// `n` random full-length tapes as the starting corpus of the tape target (a pure function of VERIF_SEED)
+fn emit_corpus<P: Property>(prop: &P, dir: &str, n: usize) -> i32 {
+    let _ = std::fs::create_dir_all(dir);
+    let mut state = run::env_seed() ^ 0x9e3779b97f4a7c15;
+    let mut next = || {
+        // splitmix64
+        state = state.wrapping_add(0x9e3779b97f4a7c15);
+        let mut z = state;
+        z = (z ^ (z >> 30)).wrapping_mul(0xbf58476d1ce4e5b9);
+        z = (z ^ (z >> 27)).wrapping_mul(0x94d049bb133111eb);
+        z ^ (z >> 31)
+    };
+    let len = prop.tape_len().min(4000);
+    for i in 0..n {
+        let mut bytes = Vec::with_capacity(len * 4);
+        // a third of the files are short (simple cases), the rest full length
+        let words = if i % 3 == 0 { 8 + (next() as usize % len.max(9)) } else { len };
+        for _ in 0..words {
+            bytes.extend_from_slice(&(next() as u32).to_le_bytes());
+        }
+        if std::fs::write(format!("{}/seed-{:04}", dir, i), &bytes).is_err() {
+            return 2;
+        }
+    }
+    println!("{}", len * 4);
+    0
+}
+
 fn dispatch<P: Property>(prop: P, args: &[String]) -> i32 {
     let prop = Arc::new(prop);
     let child = args.iter().any(|a| a == "--child");
@@ -111,27 +179,23 @@ fn main() {
         let _ = std::fs::create_dir_all(&out_dir);
         let name = std::path::Path::new(&args[2]).file_name().map(|n| n.to_string_lossy().to_string()).unwrap_or_default();
         let dest = out_dir.join(format!("{}-fuzz-{}.json", args[0], name));
+        let tape_target = args.iter().any(|a| a == "--tape");
         let doc = match args[0].as_str() {
-            "C14" => serde_json::json!({"property": "C14", "note": "from libFuzzer artifact", "case": {"text": String::from_utf8_lossy(&data), "kind": "fuzz", "all_prefixes": false, "must_reject": false}}),
-            "C09" => {
-                use run::Property;
-                let words = props::c09::words_from_bytes(&data);
-                let ctx = run::Ctx::standalone("convert");
-                let case = props::c09::C09.generate(&mut vcheck::tape::Tape::new(&words), &ctx);
-                serde_json::json!({"property": "C09", "note": "from libFuzzer artifact", "case": case})
-            }
-            _ => {
-                eprintln!("--from-fuzz is only for C09 and C14");
-                std::process::exit(2);
-            }
+            "C14" if !tape_target => serde_json::json!({"property": "C14", "note": "from libFuzzer artifact", "case": {"text": String::from_utf8_lossy(&data), "kind": "fuzz", "all_prefixes": false, "must_reject": false}}),
+            id => with_prop!(id, p => case_from_tape(&p, &data)),
         };
         std::fs::write(&dest, serde_json::to_string_pretty(&doc).unwrap()).expect("write replay");
         let mut a = vec![args[0].clone(), "--replay".to_string(), dest.to_string_lossy().to_string()];
-        a.extend(args.iter().skip(3).cloned());
+        a.extend(args.iter().skip(3).filter(|x| x.as_str() != "--tape").cloned());
         let code = match args[0].as_str() {
-            "C14" => dispatch(props::c14::C14, &a),
-            _ => c09_driver(&a),
+            "C09" => c09_driver(&a),
+            id => with_prop!(id, p => dispatch(p, &a)),
         };
+        std::process::exit(code);
+    }
+    if args.len() >= 4 && args[1] == "--emit-corpus" {
+        let n: usize = args[3].parse().unwrap_or(64);
+        let code = with_prop!(args[0].as_str(), p => emit_corpus(&p, &args[2], n));
         std::process::exit(code);
     }
     if args.is_empty() {
